@@ -21,8 +21,9 @@ def run(chk):
     base = dict(chk.coverage)
     # 2. direct calls of interpreter.Reconcile, exhaustive for short lists
     amax = 2 if chk.tier == "quick" else 3
-    s_opts = [(n, a) for n in ("a", "b") for a in range(1, amax + 1)]
-    r_opts = [(n, a) for n in ("x", "y", spec.KEPT) for a in range(1, amax + 1)]
+    # names whose joined forms coincide: (u, v:w) and (u:v, w) both read u:v:w
+    s_opts = [(n, a) for n in ("u", "u:v") for a in range(1, amax + 1)]
+    r_opts = [(n, a) for n in ("v:w", "w", spec.KEPT) for a in range(1, amax + 1)]
     cases = []
     for ss in lists(s_opts, 3):
         for rs in lists(r_opts, 3):
